@@ -151,16 +151,32 @@ def strip(obs):
     return None if obs is None else {k: v for k, v in obs.items() if k != "reported"}
 
 
+# connect options of the first program: what connect() is told not to create, the session creates itself and makes current
+CONNECT_OPTS = {
+    "no_schema_on_connect": ({"create_schema_on_connect": False}, ["create schema db1.s1", "use schema db1.s1"]),
+    "nothing_on_connect": (
+        {"create_database_on_connect": False, "create_schema_on_connect": False},
+        ["create database db1", "use database db1", "create schema s1", "use schema s1"],
+    ),
+}
+OPT_HISTORIES = [[], ["create_t1"], ["create_t1", "insert_t1"], ["create_t1", "begin", "insert_t1", "commit"], ["create_db2"]]
+
+
 def clean_node(item, acc: core.Acc, tier):
     """(1) one history, one exit mode, in a fresh interpreter: committed state before exit == state after reopening.
     The clean-exit run is also the dry run that records the engine calls of the last statement."""
-    h, mode = item
-    out = {"history": h, "mode": mode}
+    h, mode, *rest = item
+    opt = rest[0] if rest else None
+    out = {"history": h, "mode": mode, "opt": opt}
     rp = {"history": h, "sql": sqls(h), "exit": mode}
+    if opt:
+        rp["connect"] = opt
     last = h[-1] if h else "connect"
     d = _dir("n")
     try:
         spec = {"dir": d, "history": sqls(h), "exit": mode, "out": os.path.join(d, "out.json")}
+        if opt:
+            spec["patch_opts"], spec["prologue"] = CONNECT_OPTS[opt]
         rc, res, err = crash.run_child(spec)
         acc.count("evaluations")
         broken = None
@@ -184,7 +200,7 @@ def clean_node(item, acc: core.Acc, tier):
     acc.obs((h, mode, rc, res["calls_last"], repr(strip(obs))))
     acc.outcome((mode, rc, core.h(repr(strip(obs)))))
     intx = (in_tx_before_last(h) and last not in ("commit", "rollback", "commit()", "rollback()")) or last == "begin"
-    cls = f"exit={mode},last={last},in_tx={'y' if intx else 'n'}"
+    cls = f"exit={mode},last={last},in_tx={'y' if intx else 'n'}" + (f",connect={opt}" if opt else "")
     if problems:
         acc.violation("C18.reopen_works", cls, {"problems": problems}, rp)
     elif strip(obs) != res["pre_exit"]:
@@ -194,7 +210,7 @@ def clean_node(item, acc: core.Acc, tier):
     open_tx = (in_tx_before_last(h) and last not in ("commit", "rollback", "commit()", "rollback()")) or last == "begin"
     if mode == "clean" and not open_tx and res.get("own_view") is not None and res["own_view"] != res["pre_exit"]:
         acc.violation(
-            "C18.autocommit_is_committed", f"history_has={'+'.join(sorted(set(x for x in h if x in EXPECT_ERROR or x.startswith('executemany')))) or 'plain'},last={last}",
+            "C18.autocommit_is_committed", f"history_has={'+'.join(sorted(set(x for x in h if x in EXPECT_ERROR or x.startswith('executemany')))) or 'plain'},last={last}" + (f",connect={opt}" if opt else ""),
             {"diff_own_vs_committed": _diff(res["pre_exit"], res["own_view"])}, rp,
         )
     out["reopened"] = strip(obs)
@@ -343,6 +359,19 @@ def run(ctx: core.Ctx):
     ctx.assumptions = ["SIGKILL keeps the page cache (no power-loss model)", "DuckDB's WAL makes one engine call atomic"]
     modes = ("clean", "exception", "sysexit", "os_exit")
     res = ctx.pmap(clean_node, [(h, m) for h in hs for m in modes], chunk=1, recheck=False)
+    # the same with non-default connect options (everything the session then creates itself must be committed as well)
+    ores = ctx.pmap(clean_node, [(h, m, o) for o in CONNECT_OPTS for h in OPT_HISTORIES for m in ("clean", "os_exit")], chunk=1, recheck=False)
+    for (_h, _m, o), r in ores:
+        base = next((x for _, x in res if x["history"] == r["history"] and x["mode"] == "clean"), None)
+        if base is None or base.get("broken") or r.get("broken"):
+            continue
+        # ... and a later program finds what it finds after the same history under default options
+        if r.get("reopened") != base["obs"]:
+            ctx.acc.violation(
+                "C18.committed_survives_exit", f"exit={r['mode']},last={r['history'][-1] if r['history'] else 'connect'},connect={o},differs_from_default_options",
+                {"diff_to_default_options": _diff(base["obs"], r.get("reopened"))}, {"history": r["history"], "sql": sqls(r["history"]), "exit": r["mode"], "connect": o},
+            )
+    ctx.extra["connect_options"] = {"options": sorted(CONNECT_OPTS), "histories": OPT_HISTORIES, "exits": ["clean", "os_exit"]}
     nodes = {tuple(r["history"]): r for _, r in res if r["mode"] == "clean"}
     # Work that was never committed is absent: a history that ends with a transaction still open leaves, after any kind
     # of exit, exactly what the history cut before that transaction's BEGIN leaves after a clean exit (differential: the
@@ -411,7 +440,7 @@ def replay(payload):
         if got != want:
             acc.violation("C18.uncommitted_is_absent", f"exit={r['exit']},last={h[-1]}", {"diff": _diff(want, got)}, r)
     elif "exit" in r:
-        clean_node((h, r["exit"]), acc, "quick")
+        clean_node((h, r["exit"], r.get("connect")), acc, "quick")
     else:
         present = clean_node((h, "clean"), core.Acc(), "quick")
         absent = clean_node((h[:-1], "clean"), core.Acc(), "quick")["obs"] if h else None
